@@ -548,8 +548,13 @@ def main():
             what = []
             if not lean['ok']: what.append({'proof_obligation': lean.get('failed_modules', []), 'errors': lean['errors'][:10]})
             if tie_f: what.append({'correspondence': [x.as_dict() for x in tie_f[:8]], 'cases': [cases[x.case_index][:60] for x in tie_f[:2]]})
+            fm = lean.get('failed_modules', [])
+            gen_only = bool(fm) and all(('.Gen' in m or m.endswith('Gen') or 'GenVsModel' in m) for m in fm) and not tie_f
             p = write_replay('unproved', {'property': prop, 'kind': 'no-failing-input-found', 'seed': seed, 'no_longer_checks': what,
-                                          'explanation': 'the theorem or the model/implementation correspondence named here no longer checks against the current tree; no input violating the property was found by the search'})
+                                          'only_generated_definition_obligations_failed': gen_only,
+                                          'correspondence_on_this_run': {'lines_compared': sum(st['lines'] for st in stats_by_cfg.values()), 'implementation_vs_model_differences': len(tie_f)},
+                                          'explanation': 'the theorem or the model/implementation correspondence named here no longer checks against the current tree; no input violating the property was found by the search'
+                                          + (' (the failing modules are equivalence proofs between the definitions generated from the current function bodies and the model: the code was rewritten in a way the proofs do not follow; the model-level theorems still check and the differential run found no difference — a behaviour-preserving rewrite produces exactly this report)' if gen_only else '')})
             violations.append((p, ' no-failing-input-found'))
 
     # evidence
